@@ -20,6 +20,7 @@ package transport
 
 import (
 	"fmt"
+	"google.golang.org/grpc/internal/verifhook"
 	"math"
 	"sync"
 	"sync/atomic"
@@ -54,9 +55,11 @@ func (w *writeQuota) init(sz int32, done <-chan struct{}) {
 func (w *writeQuota) get(sz int32) error {
 	for {
 		if atomic.LoadInt32(&w.quota) > 0 {
+			verifhook.Point("wq.get.afterLoad")
 			atomic.AddInt32(&w.quota, -sz)
 			return nil
 		}
+		verifhook.Point("wq.get.beforeWait")
 		select {
 		case <-w.ch:
 			continue
@@ -69,6 +72,7 @@ func (w *writeQuota) get(sz int32) error {
 func (w *writeQuota) realReplenish(n int) {
 	sz := int32(n)
 	newQuota := atomic.AddInt32(&w.quota, sz)
+	verifhook.Point("wq.replenish.afterAdd")
 	previousQuota := newQuota - sz
 	if previousQuota <= 0 && newQuota > 0 {
 		select {
